@@ -2,7 +2,7 @@
    option, unit, list, prod, sumbool map to OCaml's; N / positive / nat / string
    stay the Coq inductives (no Extract Constant, no native integers). *)
 From Coq Require Import Extraction ExtrOcamlBasic.
-From Mtbl Require Import gen.Consts gen.CrcTables model.Bytes model.Codec model.Order model.Crc model.Block model.Writer model.WriteLoop model.Reader model.Verify model.Compress model.Heap model.Merger model.Sorter model.Fileset model.Ledger model.Pool spec.Leb128 spec.Parse.
+From Mtbl Require Import gen.Consts gen.CrcTables model.Bytes model.Codec model.Order model.Crc model.Block model.Writer model.WriteLoop model.Reader model.Verify model.Compress model.Heap model.Merger model.Sorter model.Fileset model.Ledger model.Pool spec.Leb128 spec.Parse spec.TableCheck.
 Extraction Language OCaml.
 Set Extraction KeepSingleton.
 Extraction "mtbl_model.ml"
@@ -17,5 +17,5 @@ Extraction "mtbl_model.ml"
   merger_iter_make merger_next merger_seek first_ge_from
   verify_file compression_type_to_str compression_type_from_str zlib_level lz4hc_level zstd_level
   reader_open reader_iter reader_get reader_get_prefix reader_get_range reader_iter_seek reader_iter_next
-  parse_table wf_validate table_entries
+  parse_table wf_validate table_entries table_check
   DEFAULT_COMPRESSION_TYPE DEFAULT_COMPRESSION_LEVEL DEFAULT_BLOCK_SIZE DEFAULT_BLOCK_RESTART_INTERVAL.
